@@ -15,7 +15,7 @@ package pogreb
 // position rather than over the bucket offset, so that the byte reads in le64 have the bound variable as index)
 //@ spec func nextPos(q int64, n int64) bool = bucketAt(q - 496, n)
 // every bucket of a file of length n (contents m) has a well-formed overflow pointer
-//@ spec func chainsOK(m mem, n int64, ovfSize int64) bool = forall q int64 :: nextPos(q, n) ==> nextOK(int64(le64(m, int(q))), ovfSize)
+//@ spec func opaque chainsOK(m mem, n int64, ovfSize int64) bool = forall q int64 :: nextPos(q, n) ==> nextOK(int64(le64(m, int(q))), ovfSize)
 
 //@ spec func idxFiles(idx *index) bool = idx != nil && allocated(idx.main) && allocated(idx.overflow) && idx.main != idx.overflow && fileInv(idx.main) && fileInv(idx.overflow) && idx.main.File != idx.overflow.File && fidOf[idx.main.File] != fidOf[idx.overflow.File] && idx.main.size >= 1024 && idx.main.size <= 0x20000000200 && idx.overflow.size >= 512 && idx.overflow.size <= 0x1000000000000
 // linear hashing state: numBuckets == 2^level + splitBucketIdx, the main file holds exactly numBuckets buckets
@@ -64,7 +64,7 @@ package pogreb
 // ---- compaction.go: promoteRecord ------------------------------------------------------------------------
 
 // the index files are not segment files
-//@ spec func idxLogDisjoint(db *DB) bool = forall i int :: 0 <= i && i < 32767 && db.datalog.segments[i] != nil ==> db.datalog.segments[i].file != db.index.main && db.datalog.segments[i].file != db.index.overflow && db.datalog.segments[i].file.File != db.index.main.File && db.datalog.segments[i].file.File != db.index.overflow.File && fidOf[db.datalog.segments[i].file.File] != fidOf[db.index.main.File] && fidOf[db.datalog.segments[i].file.File] != fidOf[db.index.overflow.File]
+//@ spec func opaque idxLogDisjoint(db *DB) bool = forall i int :: 0 <= i && i < 32767 && db.datalog.segments[i] != nil ==> db.datalog.segments[i].file != db.index.main && db.datalog.segments[i].file != db.index.overflow && db.datalog.segments[i].file.File != db.index.main.File && db.datalog.segments[i].file.File != db.index.overflow.File && fidOf[db.datalog.segments[i].file.File] != fidOf[db.index.main.File] && fidOf[db.datalog.segments[i].file.File] != fidOf[db.index.overflow.File]
 //@ spec func dbFull(db *DB) bool = dbInv(db) && idxWF(db.index) && idxLogDisjoint(db)
 
 // the slot designates the record being compacted
@@ -81,6 +81,12 @@ package pogreb
 //@   ensures inv-overflow-chains: err == nil ==> chainsOK(fData[fidOf[db.index.overflow.File]], db.index.overflow.size, db.index.overflow.size)
 //@   ensures inv-disjoint: err == nil ==> idxLogDisjoint(db)
 //@   ensures kept: forall i int :: 0 <= i && i < 32767 && old(db.datalog.segments[i]) != nil ==> db.datalog.segments[i] == old(db.datalog.segments[i])
+// compact treats ErrIterationDone from its per-record step as 'segment exhausted': promoteRecord never returns it
+//@   ensures [C05] errs: err != ErrIterationDone
+//@   ensures positions: err == nil ==> forall h ref :: old(hOpen[h]) ==> hOpen[h] && hPos[h] == old(hPos[h]) && fidOf[h] == old(fidOf[h])
+//@   ensures fullmono: forall m *segmentMeta :: old(m.Full) ==> m.Full
+// sealed segments are never written: a record is promoted into a segment that accepts writes
+//@   ensures [C03,C05] sealed-untouched: err == nil ==> forall i int :: 0 <= i && i < 32767 && old(db.datalog.segments[i]) != nil && old(db.datalog.segments[i].meta.Full) ==> db.datalog.segments[i].file.size == old(db.datalog.segments[i].file.size) && fLen[fidOf[db.datalog.segments[i].file.File]] == old(fLen[fidOf[db.datalog.segments[i].file.File]]) && fData[fidOf[db.datalog.segments[i].file.File]] == old(fData[fidOf[db.datalog.segments[i].file.File]])
 //@   ensures [C05] discard-changes-nothing: reclaimed ==> fData == old(fData) && fLen == old(fLen) && fDur == old(fDur)
 // a record is discarded only after the whole bucket chain of its hash was walked (the iterator is at the end of the chain)
 //@   at call write@1: cases which-file: b.file == db.index.main || b.file == db.index.overflow
@@ -99,3 +105,23 @@ package pogreb
 //@   loop 2:
 //@     invariant 0 <= i && i <= 31
 //@     modifies nothing
+
+// ---- compaction.go: compact ----------------------------------------------------------------------------------
+// Sequential contract: what one call does when no other goroutine runs between its critical sections. The
+// interference of writers in the lock-release windows (the rest of C05) is a property of schedules and is not decided.
+
+//@ func (db *DB) compact(sourceSeg *segment) (cr CompactionResult, err error) [C05,C06,C15]
+//@   requires inv: dbFull(db)
+//@   requires member: sourceSeg != nil && sourceSeg.id < 32767 && db.datalog.segments[sourceSeg.id] == sourceSeg
+//@   requires unlocked: lockSt[fieldaddr(db, mu)] == 0
+//@   ensures inv: err == nil ==> dbFull(db)
+//@   ensures [C15] removed: err == nil ==> db.datalog.segments[sourceSeg.id] == nil && dirFid[db.opts.FileSystem][sourceSeg.name] == 0 && dirFid[db.opts.FileSystem][sourceSeg.name + ".pmt"] == 0 && !hOpen[sourceSeg.file.File]
+//@   ensures [C05] others-kept: forall i int :: 0 <= i && i < 32767 && i != int(sourceSeg.id) && old(db.datalog.segments[i]) != nil ==> db.datalog.segments[i] == old(db.datalog.segments[i])
+//@   ensures unlocked: lockSt[fieldaddr(db, mu)] == 0
+//@   modifies *
+//@   loop 1:
+//@     invariant db == old(db) && sourceSeg == old(sourceSeg)
+//@     invariant dbFull(db) && lockSt[fieldaddr(db, mu)] == 0
+//@     invariant db.datalog.segments[sourceSeg.id] == sourceSeg && sourceSeg.meta.Full && sourceSeg.id < 32767
+//@     invariant it != nil && segItInv(it) && it.f == sourceSeg
+//@     invariant forall i int :: 0 <= i && i < 32767 && old(db.datalog.segments[i]) != nil ==> db.datalog.segments[i] == old(db.datalog.segments[i])
